@@ -1,7 +1,7 @@
 """Runner configuration of property C09 (loaded by tools/props.py; one file per property so that
 concurrent edits never collide)."""
 PROPS["C09"] = dict(
-    level_text="Theorems (Props/C09.lean) prove for the Lean model of the request encoder (QUERY, PREPARE, EXECUTE with/without result-metadata id, BATCH, STARTUP, REGISTER, OPTIONS, AUTH_RESPONSE; every subset of the optional fields; any value list with null/unset; any batch shape): frame_valid (version 4, flags = compression|tracing bits, spec opcode, u32 length = payload size), parse_encode (an independent parser written from the CQL v4 spec reads the emitted frame back to exactly the request: text/id, consistency, serial consistency, page size, paging state, timestamp, skip-metadata, values in order, batch statements in order with their values), compressed_body (payload decompresses to the uncompressed body, from the hypothesis decompress(compress b)=b), oversize_refused + representable_accepted (the encoder succeeds exactly on requests that fit a v4 frame: statements < 2^31 B, ids/strings < 2^16 B, <= 65535 values/statements, one value list per statement; otherwise an error, never truncation). Opcodes, flag bits, consistency/batch codes are re-extracted from the Rust source on every run (tools/extract_tables.py) and proved equal to the protocol literals. The model is tied to scylla-cql by a differential run through the public API with an independent Rust-side spec parser as oracle.",
+    level_text="Theorems (Props/C09.lean) prove for the Lean model of the request encoder (QUERY, PREPARE, EXECUTE with/without result-metadata id, BATCH, STARTUP, REGISTER, OPTIONS, AUTH_RESPONSE; every subset of the optional fields; any value list with null/unset; any batch shape): frame_valid (version 4, flags = compression|tracing bits, spec opcode, u32 length = payload size), parse_encode (an independent parser written from the CQL v4 spec reads the emitted frame back to exactly the request: text/id, consistency, serial consistency, page size, paging state, timestamp, skip-metadata, values in order, batch statements in order with their values), compressed_body (payload decompresses to the uncompressed body, from the hypothesis decompress(compress b)=b), adapter_batch_refines / adapter_batch_parse / adapter_batch_mismatch_refused (a BATCH built through RawBatchValuesAdapter - typed rows + per-statement RowSerializationContext, the path of Connection::batch_with_consistency - is byte-identical to the plain BATCH, and more/fewer value lists than statements or a row not matching its context is refused), oversize_refused + representable_accepted (the encoder succeeds exactly on requests that fit a v4 frame: statements < 2^31 B, ids/strings < 2^16 B, <= 65535 values/statements, one value list per statement; otherwise an error, never truncation). Opcodes, flag bits, consistency/batch codes are re-extracted from the Rust source on every run (tools/extract_tables.py) and proved equal to the protocol literals. The model is tied to scylla-cql by a differential run through the public API with an independent Rust-side spec parser as oracle.",
     level_note="Trusted: Lean kernel + {propext, Classical.choice, Quot.sound}; hand-written model Model/Request.lean + Model/WirePrim.lean (tie = byte-exact differential run against SerializedRequest::make through the public API, plus a model-independent protocol parser in harness/src/c09.rs as oracle); the regex extractor tools/extract_tables.py (fails closed). LZ4/Snappy block codecs are parameters of the model (assumed to invert; checked on every compressed case by decompressing with the same crates). Bodies >= 4 GiB ((len-9) as u32 cast) are outside the theorems' hypothesis and cannot be built here. STARTUP map order is an explicit argument (checker mode: any permutation).",
     lean_modules=["ScyllaVerif.Props.C09"],
     tables=True,
@@ -13,6 +13,7 @@ PROPS["C09"] = dict(
         "Model/ReqParse.lean is the specification side: a parser of CQL v4 request frames written from native_protocol_v4.spec (+ ScyllaDB's result-metadata-id extension of EXECUTE) with literal constants; it imports nothing from the encoder model",
         "tools/extract_tables.py copies request/response opcodes, frame/QUERY/BATCH flag bits, consistency, batch type and kind codes, null/unset markers, event names and the header layout of SerializedRequest::make from the Rust text into Generated/Constants.lean on every run (regex-based, fails closed)",
         "LZ4 / Snappy block codecs (lz4_flex, snap) are parameters of the model; the driver instantiates them with the block the implementation produced (header, flags, length field, LZ4 length prefix and the decompressed body are still compared); HashMap iteration order of STARTUP is read off the implementation's frame and must be a permutation of the requested entries",
+        "adapter-path BATCH (`abatch` cases): RawBatchValuesAdapter::new(rows, contexts) with rows = Vec<Vec<MaybeUnset<Option<Vec<u8>>>>> carried as Vec / BatchValuesFromIterator / tuple (1-4), contexts = RowSerializationContext::from_specs over blob ColumnSpecs (column count per statement is part of the case); Model/Request.lean batchLoopA/encodeBatchA transcribe raw_batch.rs:112-166 + row.rs:140-157 (WrongColumnCount) at the level of counts",
         "SerializedValues are built in the harness with add_value on blob-typed cells (null = None, unset = MaybeUnset::Unset); 2^31-byte inputs (`biglen` cases) are lazily mapped zero pages and only the model's length guard is run on them",
     ],
     assumptions=[
@@ -21,7 +22,6 @@ PROPS["C09"] = dict(
         "page size is an i32, timestamps i64, stream id i16 (the Rust types)",
     ],
     partial=[
-        "Batch::do_serialize's per-statement TooManyValues branch (> 65535 values written by one RawBatchValues row) is modelled but not exercised by the harness: with Vec<SerializedValues> the count is capped earlier by add_value; the RawBatchValuesAdapter path of the scylla crate is not driven",
         "session-level capture of frames through the mock node (timestamps / page sizes chosen by the session layer) is not part of this check; the frame layer is driven directly through SerializedRequest::make",
         "accepted inputs just below 2^31 bytes are not executed (they would copy 2 GiB); only the refusal at 2^31 is",
     ],
